@@ -332,7 +332,7 @@ impl Idx for NoIdx {
 struct AssertSend<T>(T);
 unsafe impl<T> Send for AssertSend<T> {}
 
-fn bad(class: &str, detail: String) -> Violation { Violation { class: class.to_string(), detail, rel: None, rels: vec![] } }
+fn bad(class: &str, detail: String) -> Violation { Violation { class: class.to_string(), detail, rel: None, rels: vec![], actor: None, op: None } }
 
 fn model_insert(kind: Kind, m: &mut Model, k: u32, v: u32) {
    let k = if kind == Kind::NoKey { 0 } else { k };
